@@ -24,6 +24,10 @@ type c10Case struct {
 	Clock   int    `json:"clock"`
 	CLI     bool   `json:"cli,omitempty"`
 	Answer  int    `json:"answer,omitempty"`
+	// Pre: history before the two runs: 0 fresh directory; 1 settled (default run) + edit root subject;
+	// 2 settled + edit last entity's subject; 3 settled + edit last entity's extensions and touch all configs;
+	// 4 settled + delete the last entity's artifact
+	Pre int `json:"pre,omitempty"`
 }
 
 var c10ToggleNames = []string{"profile", "relative-validity", "absolute-validity", "manipulations", "imported-key", "csr-leaf", "nested+alias"}
@@ -148,6 +152,12 @@ func c10Enumerate(tier string, yield func(any)) {
 				for clock := 0; clock < 2; clock++ {
 					yield(&c10Case{Kind: "rerun", Hier: hier, Toggles: ts, Flags: flags, Clock: clock})
 				}
+				// the same after a history: settled directory + one edit
+				if len(ts) <= 1 || tier == "thorough" {
+					for pre := 1; pre <= 4; pre++ {
+						yield(&c10Case{Kind: "rerun", Hier: hier, Toggles: ts, Flags: flags, Clock: (pre + flags) % 2, Pre: pre})
+					}
+				}
 				// the binary on a native directory: all flag sets on the single/zero-toggle worlds, a diagonal on the rest
 				if len(ts) <= 1 || (tier == "thorough" && (flags+ti)%4 == 0) || (tier != "thorough" && flags == (ti+hier)%16) {
 					yield(&c10Case{Kind: "rerun", Hier: hier, Toggles: ts, Flags: flags, Clock: 0, CLI: true})
@@ -168,7 +178,7 @@ func c10Desc(c *c10Case) string {
 	for _, x := range c.Toggles {
 		t = append(t, c10ToggleNames[x])
 	}
-	return fmt.Sprintf("hierarchy=%d toggles=[%s] flags=%s clock=%d cli=%v", c.Hier, strings.Join(t, ","), c10FlagStr(c.Flags), c.Clock, c.CLI)
+	return fmt.Sprintf("hierarchy=%d toggles=[%s] flags=%s clock=%d cli=%v history=%d", c.Hier, strings.Join(t, ","), c10FlagStr(c.Flags), c.Clock, c.CLI, c.Pre)
 }
 
 func c10FlagStr(f int) string {
@@ -205,6 +215,29 @@ func c10Exec(x *engine.Ctx, cc any) {
 		return
 	}
 	d, w := c10World(c)
+	if c.Pre > 0 {
+		if r := drive.Run(w, drive.Default, nil); !r.OK() {
+			x.Outcome("settling run did not succeed (outside C10)")
+			return
+		}
+		last := d.Certs[len(d.Certs)-1]
+		switch c.Pre {
+		case 1:
+			d.Certs[0].Subject += " edited"
+			w.Put(d.Certs[0].Path, RenderCfg(d.Certs[0].Path, d.Certs[0].Tree()))
+		case 2:
+			last.Subject += " edited"
+			w.Put(last.Path, RenderCfg(last.Path, last.Tree()))
+		case 3:
+			last.Exts = append(last.Exts, refcfg.Ext{Kind: refcfg.KOCSP})
+			w.Put(last.Path, RenderCfg(last.Path, last.Tree()))
+			for _, cfg := range d.Certs {
+				w.Touch(cfg.Path)
+			}
+		case 4:
+			w.Remove(ArtifactPath(last.Path))
+		}
+	}
 	x.Nontrivial(c10Desc(c))
 	x.State(c10Desc(c))
 	strat := db.UpdateStrategy(c.Flags)
@@ -375,7 +408,7 @@ func init() {
 	register(&engine.Check{
 		ID:          "C10",
 		Level:       "model_checking",
-		Rule:        "4 hierarchies (root; root+sub; 3-tier chain; root+2 subs) x toggle sets of size <=2 (thorough <=3) over {profile, relative validity, absolute validity, manipulations, imported key, CSR-based leaf, nested directories + explicit aliases} x 16 flag sets without generate-all x 2 clock modes (tick per write / one tick per run), 5 foreign files present: run, then run again with the same flags. Second run: empty plan, nothing generated, empty write log, directory identical including mtimes. First run: changed paths = artifact paths of exactly the reported entities, no other path changed or created. The same run;run on the built binary in a native directory for every flag set on the <=1-toggle worlds and a diagonal of the rest; consent: 9 stdin answers on 8 worlds with a pending replacement (only `y` replaces, others leave the directory identical and exit 0, no prompt when nothing is replaced). states = worlds, transitions = runs, traces_validated = binary runs",
+		Rule:        "4 hierarchies (root; root+sub; 3-tier chain; root+2 subs) x toggle sets of size <=2 (thorough <=3) over {profile, relative validity, absolute validity, manipulations, imported key, CSR-based leaf, nested directories + explicit aliases} x 16 flag sets without generate-all x 2 clock modes (tick per write / one tick per run), 5 foreign files present: run, then run again with the same flags - from the fresh directory and (for the <=1-toggle worlds; all in thorough) after four histories: settled + edit of the root's subject, of the last entity's subject, of its extensions plus touching every config, deletion of its artifact. Second run: empty plan, nothing generated, empty write log, directory identical including mtimes. First run: changed paths = artifact paths of exactly the reported entities, no other path changed or created. The same run;run on the built binary in a native directory for every flag set on the <=1-toggle worlds and a diagonal of the rest; consent: 9 stdin answers on 8 worlds with a pending replacement (only `y` replaces, others leave the directory identical and exit 0, no prompt when nothing is replaced). states = worlds, transitions = runs, traces_validated = binary runs",
 		Bound:       map[string]string{"toggle set size": "quick<=2 thorough<=3"},
 		Assumptions: []string{"answers `y` without newline and ` y ` are accepted by the code; the statement says `y`, so they are not demanded either way"},
 		Budget:      budgets(quickBudget, thoroughBudget),
